@@ -47,6 +47,36 @@ def raw_tt(tt, modes, r, gen, dt):
     return tt.TT(cores)
 
 
+class Capture:
+    """context manager collecting the begin / step / end hook events of one sweep routine ('dmrg' or 'amen')"""
+    def __init__(self, kind, active=True):
+        self.kind, self.active = kind, active
+        self.begin, self.ev, self.end = None, [], None
+
+    def __enter__(self):
+        from torchtt import _verif
+        k = self.kind
+
+        def sink(name, f):
+            if name == k + "_begin": self.begin, self.ev, self.end = f, [], None     # a nested / repeated call restarts the record
+            elif name == k + "_step": self.ev.append(f)
+            elif name == k + "_end": self.end = f
+        _verif.install(sink if self.active else None)
+        return self
+
+    def __exit__(self, *a):
+        from torchtt import _verif
+        _verif.install(None)
+        return False
+
+    def trace(self, cfg, result_R):
+        if self.begin is None or self.end is None:
+            return None
+        t = dict(self.begin)
+        t.update({"ev": self.ev, "end": self.end, "result_R": result_R, "cfg": cfg})
+        return t
+
+
 def dense_op(A):
     """dense operator as a matrix prod(M) x prod(N)"""
     D = project.dense(A.cores)
@@ -164,25 +194,18 @@ def run_product(st, opts):
     for it in range(ncalls):
         snap = algrun.snapshot(allobjs)
         stats["calls"] += 1
-        sweep = {"begin": None, "ev": [], "end": None}
-
-        def sink(name, f, sweep=sweep):
-            if name == "dmrg_begin": sweep["begin"] = f
-            elif name == "dmrg_step": sweep["ev"].append(f)
-            elif name == "dmrg_end": sweep["end"] = f
-        _verif.install(sink if op in ("fast_matvec", "dmrg_hadamard") and not use_cpp else None)
+        cap = Capture("dmrg" if op in ("fast_matvec", "dmrg_hadamard") else "amen", active=not use_cpp)
         try:
-            Y = call()
+            with cap:
+                Y = call()
         except Exception as ex:  # noqa
             problems.append(mk_problem("C11", "exception", cfg, "call %d raised %s: %s" % (it + 1, type(ex).__name__, str(ex)[:200]), st, {"exc": type(ex).__name__}))
             check_operands(cfg, st, tt, allobjs, snap, allnames, problems)
             break
-        finally:
-            _verif.install(None)
-        if sweep["begin"] is not None and sweep["end"] is not None and d >= 2:
-            b = sweep["begin"]
-            traces.append({"routine": b["routine"], "M": b["M"], "Ry": b["Ry"], "nswp": b["nswp"], "kick": b["kick"], "ev": sweep["ev"], "end": sweep["end"],
-                           "result_R": [int(r) for r in Y.R] if isinstance(Y, tt.TT) else [], "cfg": cfg})
+        t = cap.trace(cfg, [int(r) for r in Y.R] if isinstance(Y, tt.TT) else [])
+        if t is not None and d >= 2:
+            t["kind"] = cap.kind
+            traces.append(t)
         check_operands(cfg, st, tt, allobjs, snap, allnames, problems)
         if not check_tt("C11", cfg, st, tt, Y, want[0], want[1], want[2], problems):
             continue
@@ -194,8 +217,9 @@ def run_product(st, opts):
     stats["nontrivial"] = 1 if d >= 2 and cfg["r"] >= 2 else 0
     sample = {"cfg": cfg, "expected": {k: (sorted(v) if isinstance(v, (set, frozenset)) else v) for k, v in exp.items()}}
     for t in traces:      # the returned object's ranks must be the ranks the sweep ended with
-        if t["result_R"] and t["result_R"] != t["end"]["Ry"]:
-            problems.append(mk_problem("C11", "ranks-vs-shapes", cfg, "the sweep's rank list %s differs from the returned object's ranks %s" % (t["end"]["Ry"], t["result_R"]), st))
+        endR = t["end"].get("Ry", t["end"].get("rx"))
+        if t["result_R"] and t["result_R"] != endR:
+            problems.append(mk_problem("C11", "ranks-vs-shapes", cfg, "the sweep's rank list %s differs from the returned object's ranks %s" % (endR, t["result_R"]), st))
     return {"problems": problems, "stats": stats, "sample": sample, "artifacts": traces}
 
 
